@@ -420,13 +420,37 @@ func (s *Solvers) solveBatch(queries []string, secs int, fallback bool) []solver
 	s.Unique += len(uniq)
 	s.Total += len(queries)
 	const batchSize = 24
+	var wg sync.WaitGroup
+	sem := make(chan struct{}, 16)
 	var batches [][]*uq
 	// queries with recursive spec functions go to cvc5 first (it unfolds define-fun-rec over
 	// uninterpreted sorts at once where z3 runs into its timeout); the rest is batched on z3
 	var z3q []*uq
 	for _, u := range uniq {
-		if fallback && strings.Contains(u.text, "(define-fun-rec ") {
+		if strings.Contains(u.text, "(define-fun-rec ") {
 			u.res = solverResult{Result: "unknown", Solver: "-"}
+			if !fallback {
+				// vacuity probe: one short cvc5 run, "unknown" is acceptable
+				wg.Add(1)
+				go func(u *uq) {
+					defer wg.Done()
+					sem <- struct{}{}
+					defer func() { <-sem }()
+					s.mu.Lock()
+					s.n++
+					file := filepath.Join(s.dir, fmt.Sprintf("p%d.smt2", s.n))
+					s.mu.Unlock()
+					os.WriteFile(file, []byte("(set-logic ALL)\n"+u.text+"(check-sat)\n"), 0o644)
+					defer os.Remove(file)
+					old := s.timeout
+					_ = old
+					out := s.spawn([]string{"cvc5", "--tlimit=2000", file}, 4*time.Second)
+					first := strings.TrimSpace(strings.SplitN(out, "\n", 2)[0])
+					if first == "sat" || first == "unsat" {
+						u.res = solverResult{Result: first, Solver: "cvc5"}
+					}
+				}(u)
+			}
 			continue
 		}
 		z3q = append(z3q, u)
@@ -438,8 +462,6 @@ func (s *Solvers) solveBatch(queries []string, secs int, fallback bool) []solver
 		}
 		batches = append(batches, z3q[i:j])
 	}
-	var wg sync.WaitGroup
-	sem := make(chan struct{}, 16)
 	for _, b := range batches {
 		wg.Add(1)
 		go func(b []*uq) {
